@@ -28,7 +28,7 @@ EmptyG == [V |-> <<>>, E |-> <<>>]
 (* validity, as the property states it: blank ids/labels/endpoints,      *)
 (* invalid graph or property names                                        *)
 BadGraphNames == {"bad name", ""}
-BadKeys == {"_gid", "a b", "_x"}
+BadKeys == {"_gid", "_label", "_to", "_from", "_data", "a b", "_x"}
 ValidV(v) == v.id # "" /\ v.label # "" /\ (DOMAIN v.data[2]) \cap BadKeys = {}
 ValidE(e) == e.id # "" /\ e.label # "" /\ e.from # "" /\ e.to # "" /\ (DOMAIN e.data[2]) \cap BadKeys = {}
 
